@@ -618,6 +618,27 @@ func isBoundLoad(v ssa.Value, field string) (ssa.Value, bool) {
 	if fr, ok := core.AsFieldLoad(v); ok && fr.Name == field && fr.Struct != nil && (fr.Struct.Obj().Name() == "Loop" || fr.Struct.Obj().Name() == "Polygon") {
 		return fr.Base, true
 	}
+	// the accessor of the bound field (Polygon.RectBound answers for the zero value too, D47/D52), possibly kept in a
+	// local that is assigned once
+	if ld, ok := v.(*ssa.UnOp); ok && ld.Op == token.MUL {
+		if al, ok := ld.X.(*ssa.Alloc); ok {
+			var stored []ssa.Value
+			for _, ref := range *al.Referrers() {
+				if st, ok := ref.(*ssa.Store); ok && st.Addr == al {
+					stored = append(stored, st.Val)
+				}
+			}
+			if len(stored) == 1 {
+				v = stored[0]
+			}
+		}
+	}
+	if call, ok := v.(*ssa.Call); ok && field == "bound" && len(call.Call.Args) == 1 {
+		if f := core.StaticCallee(call); f != nil && f.Name() == "RectBound" && f.Signature.Recv() != nil &&
+			(core.IsNamed(f.Signature.Recv().Type(), "s2", "Loop") || core.IsNamed(f.Signature.Recv().Type(), "s2", "Polygon")) {
+			return call.Call.Args[0], true
+		}
+	}
 	return nil, false
 }
 
